@@ -32,6 +32,10 @@ hooks that edit and raise, `modified` flags, `early_stop`); `C13_irregular_reaso
 `C13_irregular_reachable` (Lemmas/CloneIrregular.lean: the three reasons for an `irregular` walker
 verdict, none of them a dangling pointer on a closed heap, the other two reachable through the public
 API and really breaking the guarded claims); the fourth editing alphabet `Edit4` (`*_ext4`).
+Round 6: `C13_meta_embed` / `C13_meta_refines_step` / `C13_meta_refines` / `C13_deep_copy_meta_fresh_main`
+(Lemmas/CloneMetaLink.lean: the formal link between `IrVerif.Clone.Meta` and the `mstore` cells of this
+model - embedding, abstraction, the commuting squares for both values of `deep_copy`, and the transfer
+of freshness / frame to the clones of this model).
 Not proved (differential / oracle only): in-place state of shared `Attr` objects (D114) and shared
 tensors (D113), `Attr.meta` / `Model.meta`, meta values that are not lists / dicts of atoms, editing
 calls outside `Edit4`, the extended alphabets for clones made with `allow_outer_scope_values=True`
@@ -52,6 +56,7 @@ import IrVerif.Lemmas.CloneWireFM
 import IrVerif.Lemmas.CloneIrregular
 import IrVerif.Lemmas.CloneMeta
 import IrVerif.Lemmas.CloneFrame4
+import IrVerif.Lemmas.CloneMetaLink
 namespace IrVerif.Clone
 
 /-! ### what "the objects of a clone" are -/
@@ -2570,6 +2575,174 @@ theorem C13_deep_copy_meta_faithful (fuel : Nat) (st st' : Meta.Store) (h h' : M
 theorem C13_shallow_meta_shared (fuel : Nat) (st : Meta.Store) (h : Meta.PyHeap) :
     ∃ st', Meta.cloneMeta false fuel st h = .ok (st', h) ∧ st'.data = st.data ∧ st'.invalid = st.invalid :=
   Meta.shallow_meta_shared fuel st h
+
+/-! ### C13_meta_refines: `IrVerif.Clone.Meta` and the `mstore` cells of this model (round 6)
+
+The values of a `meta` store are atoms (`String`) in this model: what the harness puts there is
+`str(value)`, i.e. what printing sees of the stored object - never its identity.  `IrVerif.Clone.Meta`
+keeps the identities.  Lemmas/CloneMetaLink.lean ties the two:
+* `MetaLink.embStore d`: the EMBEDDING of a store of this model into `Meta.Store` (its atoms; no Python
+  heap cell is needed);
+* `MetaLink.absStore enc k h st`: the ABSTRACTION of a refined store `st` over the Python heap `h` to a
+  `DictS` of this model: per key `enc` of the unfolding of the value to depth `k` (`Meta.obs`; `enc` and
+  `k` are arbitrary - whatever printing function the harness uses factors through some unfolding);
+  the embedding is a section of it (`C13_meta_embed`).
+The commuting squares: `Meta.cloneMeta b` followed by the abstraction is `copyMeta` on the abstraction
+(`C13_meta_refines_step`: the only call of the cloner where `deep_copy` acts), for both values of the
+flag; and for a whole clone of this model (`C13_meta_refines`): for the `meta` stores of ANY family of
+owner pairs of the wiring image (`MetaLink.WiredOwner`: pairs of the value map, `NodeWire`-related
+nodes, `GraphWire`-related graphs - every owner of the clone is the second component of one), in ANY
+order, `Meta.cloneMetaAll b` run on refined source stores that abstract to the source cells yields
+refined clone stores that abstract (in the final Python heap) to exactly what this model's clone holds.
+`C13_deep_copy_meta_fresh_main` then transfers freshness and the frame theorem of `IrVerif.Clone.Meta`
+to the clones of this model.  Hypotheses on the refined side: `Meta.HeapClosed` and `MetaLink.StoreOk`
+(the decidable `heapClosedB` / `storeOkB` the driver evaluates on every generated case). -/
+
+open MetaLink in
+/-- **C13_meta_embed**: the embedding is a section of the abstraction (in every Python heap, to every
+    depth, for every encoding that prints an atom as itself), and on embedded stores `clone_meta` is
+    the identity that allocates nothing, for both values of `deep_copy`: literally "clone in this
+    model, then embed = embed, then clone in `IrVerif.Clone.Meta`" (`copyMeta` keeps `data` and `invalid`). -/
+theorem C13_meta_embed (enc : Meta.Tree → String) (henc : ∀ s, enc (.atom s) = s) (k : Nat)
+    (h : Meta.PyHeap) (b : Bool) (fuel : Nat) (ds : List DictS) :
+    (∀ d, absStore enc k h (embStore d) = d) ∧
+    Meta.cloneMetaAll b fuel (ds.map embStore) h = .ok (ds.map embStore, h) :=
+  ⟨absStore_embStore enc henc k h, cloneMetaAll_embStore b fuel h ds⟩
+
+open MetaLink in
+/-- **C13_meta_refines_step**: one `Cloner.clone_meta(old, new, deep_copy=b)`.  If the source cell of this
+    model holds the abstraction of the refined store `st` (closed Python heap `h`), then `copyMeta`
+    allocates a cell holding the abstraction of `Meta.cloneMeta b`'s result in ITS heap `h'` - for
+    `b = true` new objects, for `b = false` the same objects: the abstraction cannot tell, which is
+    why `deep_copy` is invisible in this model. -/
+theorem C13_meta_refines_step (b : Bool) (fuel : Nat) (enc : Meta.Tree → String) (k : Nat)
+    (st st' : Meta.Store) (h h' : Meta.PyHeap) (hwf : Meta.HeapClosed h) (hst : StoreOk h st)
+    (hc : Meta.cloneMeta b fuel st h = .ok (st', h')) (s : St) (old : Nat)
+    (hold : s.w[old]? = some (.dict (absStore enc k h st))) :
+    copyMeta old s = (.ok s.w.length, { s with w := s.w ++ [.dict (absStore enc k h' st')] }) :=
+  copyMeta_refines b fuel enc k st st' h h' hwf hst hc s old hold
+
+open MetaLink in
+/-- **C13_meta_refines**: a whole clone.  When the walker accepts the source graph, for every list `os`
+    of owner pairs of the wiring image there is the list `ps` of their `meta` store cells such that
+    for both values of `deep_copy`, every refinement (`σ`, `h`) of the SOURCE cells that abstracts to
+    the heap before cloning: `Meta.cloneMetaAll b` on the refined sources gives refined clone stores
+    that abstract, in the final Python heap `h'`, to the cells of this model's clone; the source
+    cells are still abstractions of their refined stores in `h'`; `h'` is closed and extends `h`. -/
+theorem C13_meta_refines {w : World} {fuel : Nat} {allow : Bool} {g : Nat} {A : Sc}
+    (hv : cloneVerdict fuel allow w g = .ok A) :
+    ∃ (g' : Nat) (s' : St), run (graphClone fuel allow g) w = (.ok g', s'.w) ∧
+      GraphWire allow s'.w s'.vm g g' ∧ (∀ p ∈ s'.vm, ValSim s'.w p.1 p.2) ∧
+      ∀ os : List (Nat × Nat), (∀ o ∈ os, WiredOwner allow s'.w s'.vm o.1 o.2) →
+      ∃ ps : List (Nat × Nat),
+        All2 (fun o p => mstoreOf s'.w o.1 = some p.1 ∧ mstoreOf s'.w o.2 = some p.2) os ps ∧
+        ∀ (b : Bool) (fuelM k : Nat) (enc : Meta.Tree → String) (σ : Nat → Meta.Store)
+          (h : Meta.PyHeap) (ss' : List Meta.Store) (h' : Meta.PyHeap),
+          Meta.HeapClosed h → (∀ p ∈ ps, StoreOk h (σ p.1)) →
+          (∀ p ∈ ps, cDict w p.1 = some (absStore enc k h (σ p.1))) →
+          Meta.cloneMetaAll b fuelM (ps.map fun p => σ p.1) h = .ok (ss', h') →
+          All2 (fun p st' => cDict s'.w p.2 = some (absStore enc k h' st')) ps ss' ∧
+          (∀ p ∈ ps, cDict s'.w p.1 = some (absStore enc k h' (σ p.1))) ∧
+          Meta.HeapClosed h' ∧ (∀ s2 ∈ ss', StoreOk h' s2) ∧
+          h.length ≤ h'.length ∧ (∀ i, i < h.length → h'[i]? = h[i]?) := by
+  obtain ⟨g', s', _, h2, h3, h4, hle⟩ := graphClone_wiring hv
+  refine ⟨g', s', h2, h3, h4, fun os hos => ?_⟩
+  obtain ⟨ps, hp1, hp2⟩ := wired_pairs os hos
+  exact ⟨ps, hp1, fun b fuelM k enc σ h ss' h' hwf hok hcons hc =>
+    refines_all b fuelM enc k hle ps hp2 σ h hwf hok hcons ss' h' hc⟩
+
+open MetaLink in
+/-- **C13_deep_copy_meta_fresh_main**: `C13_deep_copy_meta_fresh_all` / `_frame_all` transferred to the clones
+    of THIS model.  With `deep_copy=True`, for the `meta` stores `ps` of any family of owner pairs of
+    the wiring image and any refinement of the source cells as in `C13_meta_refines`: the refined
+    clone stores `ss'` abstract to the clone's cells AND no pre-existing Python object changed, new
+    cells refer to new cells only, every object reachable from a clone store is NEW, keys / invalid
+    keys / atoms are the source's; and after ANY history of in-place edits of objects reached from
+    the clone's stores every pre-existing object is unchanged and every source cell of this model is
+    still the abstraction of its refined store (what the original's `meta` shows did not change). -/
+theorem C13_deep_copy_meta_fresh_main {w : World} {fuel : Nat} {allow : Bool} {g : Nat} {A : Sc}
+    (hv : cloneVerdict fuel allow w g = .ok A) :
+    ∃ (g' : Nat) (s' : St), run (graphClone fuel allow g) w = (.ok g', s'.w) ∧
+      GraphWire allow s'.w s'.vm g g' ∧ (∀ p ∈ s'.vm, ValSim s'.w p.1 p.2) ∧
+      ∀ os : List (Nat × Nat), (∀ o ∈ os, WiredOwner allow s'.w s'.vm o.1 o.2) →
+      ∃ ps : List (Nat × Nat),
+        All2 (fun o p => mstoreOf s'.w o.1 = some p.1 ∧ mstoreOf s'.w o.2 = some p.2) os ps ∧
+        ∀ (fuelM k : Nat) (enc : Meta.Tree → String) (σ : Nat → Meta.Store)
+          (h : Meta.PyHeap) (ss' : List Meta.Store) (h' : Meta.PyHeap),
+          Meta.HeapClosed h → (∀ p ∈ ps, StoreOk h (σ p.1)) →
+          (∀ p ∈ ps, cDict w p.1 = some (absStore enc k h (σ p.1))) →
+          Meta.cloneMetaAll true fuelM (ps.map fun p => σ p.1) h = .ok (ss', h') →
+          All2 (fun p st' => cDict s'.w p.2 = some (absStore enc k h' st')) ps ss' ∧
+          (∃ ext, h' = h ++ ext) ∧
+          (∀ i o, h.length ≤ i → h'[i]? = some o → ∀ j, Meta.PyVal.ref j ∈ o.vals → h.length ≤ j) ∧
+          (∀ i, Meta.Reach h' (Meta.rootsOf ss') i → h.length ≤ i) ∧
+          Meta.All2 (fun s s2 => s2.data.map (·.1) = s.data.map (·.1) ∧ s2.invalid = s.invalid ∧
+            Meta.All2 (fun e e' => e'.1 = e.1 ∧ ∀ a, e.2 = .atom a ↔ e'.2 = .atom a) s.data s2.data)
+            (ps.map fun p => σ p.1) ss' ∧
+          ∀ es : List Meta.PyEdit, Meta.ReachHistory (Meta.rootsOf ss') es h' →
+            (∀ i, i < h.length → (Meta.runPyHistory es h')[i]? = h[i]?) ∧
+            ∀ p ∈ ps, cDict s'.w p.1 = some (absStore enc k (Meta.runPyHistory es h') (σ p.1)) := by
+  obtain ⟨g', s', _, h2, h3, h4, hle⟩ := graphClone_wiring hv
+  refine ⟨g', s', h2, h3, h4, fun os hos => ?_⟩
+  obtain ⟨ps, hp1, hp2⟩ := wired_pairs os hos
+  refine ⟨ps, hp1, fun fuelM k enc σ h ss' h' hwf hok hcons hc => ?_⟩
+  obtain ⟨r1, _, _, _, _, _⟩ := refines_all true fuelM enc k hle ps hp2 σ h hwf hok hcons ss' h' hc
+  obtain ⟨f1, f2, f3, f4⟩ := Meta.deep_copy_meta_fresh_all fuelM _ ss' h h' hc
+  refine ⟨r1, f1, f2, f3, f4, fun es hh => ?_⟩
+  refine ⟨(Meta.deep_copy_meta_frame_all fuelM _ ss' h h' hc es hh).1, fun p hp => ?_⟩
+  rw [cDict_mono hle (hcons p hp), frame_all fuelM enc k _ ss' h h' hwf hc es hh (σ p.1) (hok p hp)]
+
+/-- a printing function for the examples: an atom as itself, a container by its class -/
+def exEnc : Meta.Tree → String
+  | .atom s => s
+  | .list _ => "<list>"
+  | .dict _ _ => "<dict>"
+  | _ => "?"
+
+/-- `exWorld` with the objects of `Meta.exStore` (a cyclic list under two keys, an atom, an invalid
+    key) in the `meta` store of the graph input `x` (cell 5) -/
+def exMetaWorld : World := exWorld.set 5 (.dict (MetaLink.absStore exEnc 2 Meta.exHeap Meta.exStore))
+
+/-- non-vacuity of `C13_meta_refines` / `C13_deep_copy_meta_fresh_main`: the walker accepts `exMetaWorld`,
+    the store holds non-atoms, and the hypotheses on the refined side hold for `σ 5 = Meta.exStore`
+    over `Meta.exHeap` (closed, no dangling store value, consistent, `cloneMetaAll` returns) -/
+example : verdictKind (cloneVerdict 4 false exMetaWorld 0) = "ok" ∧
+    cDict exMetaWorld 5 = some { data := [("a", "<list>"), ("b", "<list>"), ("c", "z")], invalid := ["c"] } ∧
+    cDict exMetaWorld 5 = some (MetaLink.absStore exEnc 2 Meta.exHeap Meta.exStore) ∧
+    Meta.heapClosedB Meta.exHeap = true ∧ Meta.storeOkB Meta.exHeap Meta.exStore = true ∧
+    (Meta.cloneMetaAll true 3 [Meta.exStore] Meta.exHeap).toBool = true ∧
+    (Meta.cloneMetaAll false 3 [Meta.exStore] Meta.exHeap).toBool = true := by decide +kernel
+
+/-- the hypotheses of the refined side are satisfiable over EVERY heap of this model: the embedding
+    of the cells' contents over the empty Python heap (for every encoding that prints atoms as
+    themselves) -/
+example (enc : Meta.Tree → String) (henc : ∀ s, enc (.atom s) = s) (k : Nat) (b : Bool) (fuelM : Nat)
+    (w : World) (ps : List (Nat × Nat)) (hps : ∀ p ∈ ps, (cDict w p.1).isSome) :
+    let σ : Nat → Meta.Store := fun c => MetaLink.embStore ((cDict w c).getD {})
+    Meta.HeapClosed [] ∧ (∀ p ∈ ps, MetaLink.StoreOk [] (σ p.1)) ∧
+    (∀ p ∈ ps, cDict w p.1 = some (MetaLink.absStore enc k [] (σ p.1))) ∧
+    Meta.cloneMetaAll b fuelM (ps.map fun p => σ p.1) [] = .ok (ps.map fun p => σ p.1, []) := by
+  refine ⟨fun i o ho => by simp at ho, ?_, ?_, ?_⟩
+  · intro p _ e he j hj
+    simp only [MetaLink.embStore, List.mem_map] at he
+    obtain ⟨x, _, rfl⟩ := he
+    cases hj
+  · intro p hp
+    rw [MetaLink.absStore_embStore enc henc]
+    have := hps p hp
+    cases hc : cDict w p.1 with
+    | none => rw [hc] at this; cases this
+    | some d => rfl
+  · have := MetaLink.cloneMetaAll_embStore b fuelM [] (ps.map fun p => (cDict w p.1).getD {})
+    simpa [List.map_map, Function.comp_def] using this
+
+/-- non-vacuity of `C13_meta_refines_step` with a store of non-atoms, and what it computes -/
+example :
+    (Meta.cloneMeta true 3 Meta.exStore Meta.exHeap).toBool = true ∧
+    (copyMeta 0 { w := [.dict (MetaLink.absStore exEnc 2 Meta.exHeap Meta.exStore)] }).2.w =
+      [.dict { data := [("a", "<list>"), ("b", "<list>"), ("c", "z")], invalid := ["c"] },
+       .dict { data := [("a", "<list>"), ("b", "<list>"), ("c", "z")], invalid := ["c"] }] := by
+  decide +kernel
 
 end IrVerif.Clone
 
